@@ -37,8 +37,11 @@ F(path, ncls, type, anc, own, dot, unreadable) ==
    [path |-> path, pathstr |-> Join(path), pchars |-> Chars(Join(path)), ncls |-> ncls, type |-> type, anc |-> anc,
     ignored |-> FALSE, unreadable |-> unreadable, cov |-> TRUE, own |-> own, dot |-> dot]
 Own(cop, lics) == [cop |-> cop, lic |-> lics, bad |-> FALSE]
-Good(path, id) == F(path, "plain", "text", [k \in 1..(Len(path) - 1) |-> dirp("plain")],
-                    Own(<<"SPDX-FileCopyrightText: 2020 Some One">>, <<L(id)>>), NoDot, FALSE)
+GoodL(path, lics) == F(path, "plain", "text", [k \in 1..(Len(path) - 1) |-> dirp("plain")],
+                        Own(<<"SPDX-FileCopyrightText: 2020 Some One">>, lics), NoDot, FALSE)
+Good(path, id) == GoodL(path, <<L(id)>>)
+(* one file that misses three licence texts at once: two tags, one of them a compound expression *)
+ThreeMissing == <<L("ISC"), [text |-> "BSL-1.0 OR X11", tree |-> [op |-> "OR", l |-> Leaf("BSL-1.0"), r |-> Leaf("X11")]]>>
 
 F1 == F(<<"src", "f1.py">>, "plain", "text", <<dirp("plain")>>,
         [cop |-> IF HasCop(i1) \/ i1 = "unreadable" THEN <<"SPDX-FileCopyrightText: 2019 First Author">> ELSE <<>>,
@@ -54,7 +57,7 @@ Toml == [dir |-> <<>>, dirchars |-> <<>>, srcstr |-> "REUSE.toml",
                        cop |-> IF HasCop(i3) THEN <<"2017 Third Author">> ELSE <<>>,
                        lic |-> IF HasLic(i3) THEN <<L("MIT")>> ELSE <<>>]>>]
 InvFiles ==
-   (IF "missing" \in inv THEN <<Good(<<"inv", "missing.py">>, "ISC")>> ELSE <<>>)
+   (IF "missing" \in inv THEN <<GoodL(<<"inv", "missing.py">>, ThreeMissing)>> ELSE <<>>)
    \o (IF "badused" \in inv THEN <<Good(<<"inv", "bad.py">>, "Nonexistent-1.0")>> ELSE <<>>)
    \o (IF "deprecated" \in inv THEN <<Good(<<"inv", "dep.py">>, "GPL-2.0")>> ELSE <<>>)
    \o (IF "noext" \in inv THEN <<Good(<<"inv", "noext.py">>, "0BSD")>> ELSE <<>>)
@@ -78,7 +81,7 @@ Distractors ==
 Proj == [files |-> <<Good(<<"base.py">>, "MIT"), F1, F2, F3>> \o InvFiles \o Distractors,
          licfiles |-> LicFiles, tomls |-> <<Toml>>, dep5 |-> <<>>,
          opts |-> [submodules |-> FALSE, meson |-> FALSE],
-         cls |-> [s \in {"MIT", "ISC", "Zlib", "0BSD", "GPL-2.0", "Nonexistent-1.0"} |->
+         cls |-> [s \in {"MIT", "ISC", "Zlib", "0BSD", "GPL-2.0", "Nonexistent-1.0", "BSL-1.0", "X11"} |->
                     CASE s = "GPL-2.0" -> "dep" [] s = "Nonexistent-1.0" -> "unk" [] OTHER -> "cur"]]
 (* the event's project gets cov from the trace spec; in the model cov = R's own answer *)
 ProjR == [Proj EXCEPT !.files = [k \in 1..Len(Proj.files) |->
